@@ -108,7 +108,7 @@ class Eval:
         self.differences = []      # (what, case, detail)  model and code differ / replica differs
         self.stats = {"GP": 0, "GR": 0, "SP": 0, "skipped_outside_domain": 0, "gp_callbacks": 0, "gp_ub_exposures": 0,
                       "gp_lb_exposures": 0, "gp_penalty_update_exposures": 0, "gp_zero_area_circuits": 0, "gp_with_fixed": 0,
-                      "half_unit_excursions_positive_area": 0, "half_unit_excursions_zero_area": 0,
+                      "half_unit_excursions_positive_area": 0, "half_unit_excursions_zero_area": 0, "gp_no_capacity_runs_judged": 0,
                       "final_ub_outside_closed_bin_interval": 0, "final_ub_cells_in_bins": 0,
                       "export_cells_compared": 0, "export_exact_equal": 0, "export_off_by_one": 0,
                       "grid_limit_lists_compared": 0, "spread_coordinates_compared_exact": 0,
@@ -143,6 +143,12 @@ class Eval:
             self.stats[tag] = self.stats.get(tag, 0) + 1
             if r.startswith("SKIP"):
                 self.stats["skipped_outside_domain"] += 1
+                # by reason (all three are outside the quantifier: a row narrower than four row-heights; no movable cell of positive
+                # area; bin size * standard-cell height < 1 = parameter box). "no capacity" is NOT a reason any more: those runs are judged
+                why = ("parameters rejected by the parameter check" if "params rejected" in r else
+                       "+".join(k for k, t in (("row narrower than 4 row-heights", "narrow=1"), ("no movable cell of positive area", "posCell=0"),
+                                               ("bin size below one unit", "maxSize=0")) if t in r) or r[:60])
+                self.bucket(self.stats.setdefault("skipped_by_reason", {}), why)
                 continue
             if tag == "SP":
                 s = [x.strip() for x in r.split(" | ")]
@@ -199,6 +205,12 @@ class Eval:
         frame, exc_pos, exc_zero = [int(x) for x in s[3].split()]
         self.stats["half_unit_excursions_positive_area"] += exc_pos
         self.stats["half_unit_excursions_zero_area"] += exc_zero
+        if exc_pos:
+            # the half-unit tolerance of the harness (1/2 in y always, 1/2 in x when the margin is 0) exists only for cells of ZERO area
+            # (representation limit: the exported integer position of a cell whose centre sits on the box edge). A cell of positive area
+            # is spread strictly inside its bin: a use of the tolerance by such a cell is a violation, not a pass.
+            self.violations.append(("upper-bound placement exposes a movable cell of POSITIVE area with its centre outside the rows' bounding box "
+                                    "(by half a unit, %d exposures in this run)" % exc_pos, l, "excursions positive-area=%d zero-area=%d" % (exc_pos, exc_zero)))
         if s[2] != "-":
             what = s[2]
             kind = ("upper-bound placement exposes a movable cell with its centre outside the rows' bounding box"
@@ -218,6 +230,13 @@ class Eval:
             self.bucket(self.dist["rough_coarsening_limit"], "default" if par[20] == "1000" else "other")
         if len(pub) == 4:
             self.cmp_exposed(l, par, ret, pub[1], pub[2], pub[3])
+        if len(s) >= 6 and s[5].startswith("NOCAP"):
+            # fixed cells / obstructions / the side margin leave no free site in any bin (total capacity <= 0).  The circuit IS in the
+            # property's quantifier (a movable cell of positive area, every row >= 4 row-heights wide, "any fixed cells and
+            # obstructions"): the public entry point was run and judged above (completed without error, exposed centres, finite
+            # coordinates, frame, exposed blend); only the private replica and the model ties (hypothesis: non-empty clipped rows) are left out
+            self.stats["gp_no_capacity_runs_judged"] += 1
+            return
         if len(s) < 15 or not s[5].startswith("OK"):
             self.differences.append(("replica of GlobalPlacer::place failed while Circuit::placeGlobal succeeded", l, " | ".join(s[5:])[:300]))
             return
@@ -665,13 +684,28 @@ def run(ctx):
         "slack": "centre vs rows' bounding box: x exact when the margin is >= 1 (else 1/2), y 1/2 (closed-interval clamp of cells without "
                  "a bin + integer rounding of the lower-left; theorem c06_exported_centre_closed); excursions of exactly 1/2 are counted below",
         "statistics": ev.stats, "distribution": ev.dist,
+        "domain_decisions": {
+            "no_capacity (total bin capacity <= 0 after fixed cells, obstructions and the side margin)": "IN the quantifier (a movable cell of positive area, "
+                "every row >= 4 row-heights wide, any fixed cells and obstructions): Circuit::placeGlobal is run and judged on the whole statement "
+                "(completes without error, exposed centres inside the rows' bounding box, finite coordinates, frame, exposed blend); "
+                "statistics.gp_no_capacity_runs_judged; the private replica and the model ties are not evaluated there",
+            "row narrower than 4 row-heights / no movable cell of positive area / bin size below one unit / parameters rejected": "OUTSIDE the quantifier: "
+                "skipped and counted by reason in statistics.skipped_by_reason",
+            "half-unit tolerance of the centre oracle": "kept (1/2 in y always, 1/2 in x when the margin is 0); its uses are counted separately: "
+                "statistics.half_unit_excursions_positive_area must be 0 (any use by a cell of positive area is reported as a violation), "
+                "statistics.half_unit_excursions_zero_area is allowed (representation limit: a zero-area cell's exported integer position "
+                "can only represent its centre up to 1/2)"},
         "model_vs_impl_differences": len(ev.differences), "impl_outputs_violating_statement": len(ev.violations)})
     return ctx.finish(LEVEL, cov, [
         "completion without error, finiteness and the single-precision rounding are validated on the generated runs only (Eigen CG is outside the model)",
         "the spreading theorems take the bins as given (each cell in at most one bin, demands of binned cells non-negative): C16",
         "model follows the tree with the F15 repair (cells in no bin reported at their clamped target)",
-        "binary32: the unclamped and the clamped (candidate repair of F21) interpolation of spreadCells are both modelled; the run must equal one "
-        "of them bit for bit on every case; F21 is a known finding while /repo carries the unclamped one",
+        "binary32: the unclamped and the clamped (repair of F21, /repo 7b95a91) interpolation of spreadCells are both modelled; the run must equal one "
+        "of them bit for bit on every case; F21 is recorded as fixed, an unclamped tree is reported as a violation",
+        "clause 1 (centre inside the rows' bounding box) is proved over Q and conditionally on C16's bins; for area-less cells and on the edge of the area "
+        "it is proved AND checked only up to 1/2 (the oracle accepts 1/2 in y always and 1/2 in x when the margin is 0: statistics half_unit_excursions_*); "
+        "in binary32 only the closed interval of the clamped expression is proved, not composed with the export",
+        "cases with clipped capacity <= 0 are skipped by the harness as outside the domain (counted), although obstructions can produce them",
         "sideMargin is kept at its default (it is not range-checked by the parameter check and not part of the property's quantifier); "
         "the grid theorem needs margin >= 0"])
 
